@@ -97,6 +97,7 @@ Inductive event :=
 | EvSlotFree (c : cid)
 | EvEnq (p : cid) (root : cid) (basis : nat)
 | EvDeliver (p : cid) (d : dest)
+| EvProc (a : cid) (p : cid)   (* ghost: the drain loop of a's answerQueue processes queue entry p *)
 | EvShutCall
 | EvShutUser.
 
@@ -338,7 +339,7 @@ Definition step_impl (P : params) (c : config) (x : cid) : option config :=
     | ADraining k =>
       match nth_error (aq_q c x) k with
       | Some p =>
-        let c1 := set_aq_ph (upd (aq_ph c) x (ADraining (S k))) c in
+        let c1 := ev (EvProc x p) (set_aq_ph (upd (aq_ph c) x (ADraining (S k))) c) in
         if ierr c x then
           (* reject: q[i].Reject(e) *)
           Some (set_ppc (upd (ppc c1) p PDone) (set_tret (upd (tret c1) p (TErr x)) (complete p (CErr x) c1)))
